@@ -28,7 +28,8 @@ RULE = ("icontract ensure on dsw.encode: strand == reference strand (little-endi
         "closed graphs, complete graphs, k<=3 (quick) / 5 (thorough); random / constant / no tables; message classes as C01; "
         "arbitrary non-tight walks (incl. trailing zero digits) for the decode side; exhaustive 24 constant tables x 15 live "
         "patterns at the start vertex x every first digit. Non-trivial: the walk meets a vertex of out-degree 3 or 4 whose "
-        "table row is not the identity, or two different radices > 1; distinct = canonical hash of the case.")
+        "table row is not the identity, or two different radices > 1; distinct = canonical hash of the case."
+        ' Also: messages of 100-400 bits, messages whose first 63..256 bits are zero (word boundaries), one message beyond 2100 bits (int<->str trap), buffer twins, widths as numpy unsigned integers, and edit sequences on one accessor object overwritten in place.')
 
 STATE = {"undefined": 0}
 
